@@ -31,6 +31,11 @@ def generate(rng, tier):
                     c["desc"]["negative_q"] = True
                 if rep < 4:
                     FL.force_uncertainties(rng, c, dgr=(rep in (0, 1)), dy=(rep in (0, 2)))
+                # Lorch on a low-r section whose largest abscissa is 0 divides pi by zero: outside every property's domain
+                low_ = [v for v in c["r"] if 0.0 <= v <= c["cutoff"]]
+                if c["lorch"] and (not low_ or max(low_) <= 0.0):
+                    c["lorch"] = False
+                    c["desc"]["lorch"] = False
                 cases.append(c)
         rng.random()
     # a single-precision r grid and a cutoff typed as the decimal value of one of its points (whose float32 value lies just above it)
